@@ -159,8 +159,21 @@ pub fn scenario(ctx: &Ctx, idx: u64, check: &'static str, stream: &'static str) 
             tokio::spawn(async move {
                 loop {
                     sleep_us(srng.gen_range(MIN..40 * MIN)).await;
-                    let ih = gen::rand_id(&mut srng);
-                    let _ = run_search(&net2, &dht2, ih, srng.gen_bool(0.5), Duration::from_secs(600)).await;
+                    // one search, or a burst of overlapping (announcing) searches
+                    let burst = if srng.gen_bool(0.4) { srng.gen_range(2..=4) } else { 1 };
+                    let mut running = Vec::new();
+                    for _ in 0..burst {
+                        let ih = gen::rand_id(&mut srng);
+                        let announce = burst > 1 || srng.gen_bool(0.5);
+                        let (net3, dht3) = (net2.clone(), dht2.clone());
+                        running.push(tokio::spawn(async move {
+                            let _ = run_search(&net3, &dht3, ih, announce, Duration::from_secs(600)).await;
+                        }));
+                        sleep_us(srng.gen_range(0..300 * MS)).await;
+                    }
+                    for r in running {
+                        let _ = r.await;
+                    }
                 }
             });
         }
